@@ -300,6 +300,9 @@ type sysJSON struct {
 	ProviderL  map[string]string `json:"provider_labels"`
 	FinalL     map[string]string `json:"final_labels"`
 	Steps      []stepJSON        `json:"steps"`
+	Pre        []string          `json:"before_build"`
+	BuiltFrom  string            `json:"hash_of_template_built_from"`
+	Stamp      map[string]string `json:"claim_annotations_at_creation"`
 	KfKey      string            `json:"kf_key,omitempty"`
 }
 
@@ -354,6 +357,7 @@ func reservedKeyList() []string {
 }
 
 type sysPlan struct {
+	preEdits   int
 	tmplLabels map[string]string
 	poolReqs   []kcall
 	podReqs    []kcall
@@ -375,8 +379,55 @@ func runSys(c *kit.Ctx, r *kit.Rand, plan sysPlan) {
 	validated := np.RuntimeValidate(e.ctx) == nil
 	kit.Apply(e.ctx, e.kube, nodeClass, np)
 	e.np = np
-	e.runHashController(c, nil)
-	np = e.np
+	// ---- before the claim is built: the hash controller may or may not have stamped the pool, and the template may be
+	// edited (hashed or ignored fields) with the hash controller lagging behind. The claim is built from the pool OBJECT.
+	stale := false
+	var pre []string
+	if r.Chance(3, 4) {
+		e.runHashController(c, nil)
+		pre = append(pre, "hashctl")
+	} else {
+		stale = true
+		pre = append(pre, "no-hashctl")
+	}
+	for i, n := 0, plan.preEdits; i < n; i++ {
+		cur := &v1.NodePool{ObjectMeta: metav1.ObjectMeta{Name: "pool"}}
+		e.get(cur)
+		hashed := r.Bool()
+		if hashed {
+			switch r.Intn(4) {
+			case 0:
+				cur.Spec.Template.Annotations = map[string]string{"example.com/rev": fmt.Sprint(i)}
+			case 1:
+				cur.Spec.Template.Spec.Taints = append(cur.Spec.Template.Spec.Taints, corev1.Taint{Key: fmt.Sprintf("example.com/pre%d", i), Effect: corev1.TaintEffectNoSchedule})
+			case 2:
+				cur.Spec.Template.Spec.ExpireAfter = v1.MustParseNillableDuration(fmt.Sprintf("%dh", 100+i))
+			case 3:
+				cur.Spec.Template.Spec.TerminationGracePeriod = &metav1.Duration{Duration: time.Duration(10+i) * time.Minute}
+			}
+			stale = true
+			pre = append(pre, "edit-hashed")
+		} else {
+			w := int32(10 + i)
+			cur.Spec.Weight = &w
+			cur.Spec.Disruption.Budgets = []v1.Budget{{Nodes: fmt.Sprint(2 + i)}}
+			pre = append(pre, "edit-ignored")
+		}
+		if err := e.kube.Update(e.ctx, cur); err != nil {
+			panic(err)
+		}
+		if r.Bool() {
+			e.runHashController(c, nil)
+			stale = false
+			pre = append(pre, "hashctl")
+		}
+	}
+	np = &v1.NodePool{ObjectMeta: metav1.ObjectMeta{Name: "pool"}}
+	e.get(np)
+	e.np = np
+	builtFrom := np.Hash() // Hash() of the template the claim is built from
+	_, poolStamped := np.Annotations[v1.NodePoolHashAnnotationKey]
+	c.Count(fmt.Sprintf("build:pool-annotated=%v,annotation-stale=%v", poolStamped, poolStamped && np.Annotations[v1.NodePoolHashAnnotationKey] != builtFrom))
 
 	// ---- the scheduler's part: template, pod requirements, instance type options, ToNodeClaim
 	nct := provscheduling.NewNodeClaimTemplate(np)
@@ -410,6 +461,10 @@ func runSys(c *kit.Ctx, r *kit.Rand, plan sysPlan) {
 	}
 	nc.Name = "claim"
 	nc.UID = types.UID("claim-uid")
+	stampAnn := map[string]string{}
+	for k, v := range nc.Annotations {
+		stampAnn[k] = v
+	}
 	nc.CreationTimestamp = metav1.Time{Time: e.t0}
 	claimLabels := map[string]string{}
 	for k, v := range nc.Labels {
@@ -579,7 +634,8 @@ func runSys(c *kit.Ctx, r *kit.Rand, plan sysPlan) {
 	ages := []time.Duration{time.Minute, 3599 * time.Second, 3600 * time.Second, 3601 * time.Second, 2 * time.Hour}
 
 	// the fresh claim, first at a young age, then once past the hour (instance type check runs)
-	step("fresh", kit.Pick(r, ages[:2]), false)
+	// (when the pool's stamp was missing or stale at build time the hash controller catches up first)
+	step("fresh", kit.Pick(r, ages[:2]), stale)
 	scenario := plan.scenario
 	if pj.Steps[0].Observed != "" {
 		// a fresh claim reported drifted: name the known input shape (if it is one) and stop here
@@ -768,7 +824,9 @@ func runSys(c *kit.Ctx, r *kit.Rand, plan sysPlan) {
 		b, _ := json.Marshal(pj)
 		nt = "sys:" + string(b)
 	}
-	c.AddCase(fmt.Sprintf("CaseSys %s %s %s %s %s %s %s %s %s", kit.GBool(validated), strsTerm(noResolveKeys),
+	sh, shok, sv, svok := annOf(stampAnn)
+	pj.Pre, pj.BuiltFrom, pj.Stamp = pre, builtFrom, stampAnn
+	c.AddCase(fmt.Sprintf("CaseSys %s (%s, %s) %s %s %s %s %s %s %s %s %s", cons.str(builtFrom), optStr(sh, shok), optStr(sv, svok), kit.GBool(validated), strsTerm(noResolveKeys),
 		fmt.Sprintf("(mkPool %s (%s, %s) %s %s)", cons.str("pool"), cons.str(v1.NodeClassLabelKey(np.Spec.Template.Spec.NodeClassRef.GroupKind())), cons.str(nodeClass.Name),
 			labelsTerm(plan.tmplLabels), callsTerm(plan.poolReqs)),
 		callsTerm(podApplied), labelsTerm(claimLabels), labelsTerm(provTermL), labelsTerm(finalL), kit.GBool(plan.scenario == "fresh"), kit.GList(stepTerms)), pj, nt)
@@ -873,6 +931,9 @@ func presenceShape(steps []stepJSON, final map[string]string) string {
 
 func genPlan(r *kit.Rand, scenario string) sysPlan {
 	p := sysPlan{scenario: scenario, tmplLabels: map[string]string{}}
+	if r.Chance(1, 2) {
+		p.preEdits = r.Range(1, 2)
+	}
 	for i, n := 0, r.Intn(3); i < n; i++ {
 		p.tmplLabels[kit.Pick(r, []string{k1, k2, k3, k3})] = kit.Pick(r, customVals)
 	}
